@@ -272,6 +272,14 @@ def one_relational(rnd, acc, api):
                     row.pop('m', None) if rnd.random() < 0.5 else None
             cats = rnd.sample(fields, rnd.randint(0, 2))
             fn = rnd.choice(['count', 'sum', 'min', 'max', 'average', 'stddev'])
+            textual = rnd.random() < 0.15
+            if textual:
+                # count / min / max are defined for every ordered value type: a string or a datetime measure (first / last name, first / last day)
+                vals_pool = rnd.choice([['pear', 'apple', 'Zoe', 'fig', '', 'apple pie'],
+                                        [datetime.datetime(2024, 1, 1), datetime.datetime(2023, 12, 31, 23, 59), datetime.datetime(2024, 6, 1, 12), datetime.datetime(1999, 1, 1)]])
+                numrows = [{**row, 'm': rnd.choice(vals_pool + [None])} for row in rows]
+                fn = rnd.choice(['count', 'min', 'max'])
+                acc.count('non_numeric_measure_aggregations')
             named = rnd.random() < 0.6
             case.update({'rows': refval.enc(numrows), 'cats': cats, 'fn': fn})
             if ambiguous_keys([row.get(c) for row in numrows for c in cats]) or ('m' in cats):
@@ -280,7 +288,7 @@ def one_relational(rnd, acc, api):
             if named:
                 measure['name'] = 'out'
             agg = {'measures': [measure]}
-            fn2 = rnd.choice(['count', 'sum', 'min', 'max', 'average', 'stddev'])
+            fn2 = rnd.choice(['count', 'sum', 'min', 'max', 'average', 'stddev'] if not textual else ['count', 'min', 'max'])
             two = rnd.random() < 0.5
             if two:
                 agg['measures'].append({'field': 'm', 'function': fn2, 'name': 'out2'})
